@@ -48,6 +48,10 @@ type Input struct {
 	Hasher   int                        `json:"hasher"`
 	Contexts map[string]json.RawMessage `json:"contexts,omitempty"`
 	Path     []any                      `json:"path,omitempty"` // where the failure was seen (informational)
+	// Pinned: three-step sequence in one process: (1) merklize.SetHasher(hasher #Hasher) and
+	// MerklizeJSONLD WITHOUT WithHasher, (2) merklize.SetHasher(another hasher), (3) all
+	// observations through mz.Hasher() / mz.Options(); the default is restored afterwards
+	Pinned bool `json:"pinned,omitempty"`
 }
 
 // jv is a JSON value as RawValue returns it.
@@ -293,6 +297,9 @@ type entryRes struct {
 	// unpaired: the sibling group's document array could not be tied to this entry
 	// (node arrays in non-canonical order, or no document value found for the leaf)
 	unpaired bool
+	// decimal snapshots taken at observation time: results handed out earlier must not change
+	// when later calls are made (aliasing of pooled / cached big.Int values)
+	hvSnap, leafSnap string
 }
 
 func safeHash(h merklize.Hasher, dt string, raw any) (v *big.Int, msg string, panicked bool) {
@@ -347,11 +354,39 @@ func canonExact(f float64) bool {
 	return exact != nil && r.Cmp(exact) == 0
 }
 
+// lateHasher is what merklize.SetHasher installs AFTER a pinned merklization: its Hash and
+// HashBytes differ from every hasher of hasherSet.
+func lateHasher() merklize.Hasher {
+	return hashers.NewRecorder(hashers.Mod{P: new(big.Int).Set(constants.Q), SaltBytes: []byte("late:"), SaltElem: big.NewInt(4242), Name: "late"})
+}
+
 func (d *drv) docCase(stream string, doc []byte, hi int, ctxs map[string]json.RawMessage) bool {
+	return d.docCaseP(stream, doc, hi, ctxs, false)
+}
+
+func (d *drv) docCaseP(stream string, doc []byte, hi int, ctxs map[string]json.RawMessage, pinned bool) bool {
 	h := d.hs[hi]
 	d.docReported = map[string]bool{}
-	in := &Input{Stream: stream, Doc: json.RawMessage(doc), Hasher: hi, Contexts: ctxs}
-	mz, mo := mzrun.Merklize(doc, merklize.WithHasher(h), merklize.WithDocumentLoader(d.loader))
+	in := &Input{Stream: stream, Doc: json.RawMessage(doc), Hasher: hi, Contexts: ctxs, Pinned: pinned}
+	var mz *merklize.Merklizer
+	var mo mzrun.Outcome
+	if pinned {
+		d.rep.Count("pinned-sequences")
+		creation := hashers.NewRecorder(h) // a pointer: comparable with mz.Hasher()
+		merklize.SetHasher(creation)
+		defer merklize.SetHasher(merklize.PoseidonHasher{})
+		mz, mo = mzrun.Merklize(doc, merklize.WithDocumentLoader(d.loader))
+		merklize.SetHasher(lateHasher())
+		if mo.Class == "ok" {
+			if mz.Hasher() != merklize.Hasher(creation) {
+				d.rep.Fail("c10-default-hasher-not-pinned", "after merklize.SetHasher the merklizer built without WithHasher reports another Hasher()", in)
+			}
+			// everything below goes through mz.Hasher() / mz.Options(), as a caller would
+			h = mz.Hasher()
+		}
+	} else {
+		mz, mo = mzrun.Merklize(doc, merklize.WithHasher(h), merklize.WithDocumentLoader(d.loader))
+	}
 	d.rep.Count(stream + ":merklize:" + mo.Class)
 	if mo.Class == "panic" || mo.Class == "hang" {
 		d.rep.Fail("c10-merklize-"+mo.Class, "MerklizeJSONLD: "+mo.Msg, in)
@@ -368,12 +403,20 @@ func (d *drv) docCase(stream string, doc []byte, hi int, ctxs map[string]json.Ra
 		}
 	}
 	var res []*entryRes
-	for _, v := range views {
+	for mapKey, v := range views {
 		if v.Datatype == "" {
 			d.rep.Count("non-literal-entry")
 			continue // IRI-valued statements (incl. rdf:type) are not literals
 		}
-		res = append(res, d.observe(mz, h, v, in))
+		res = append(res, d.observe(mz, h, mapKey, v, in))
+	}
+	for _, r := range res {
+		if (r.hv != nil && r.hvSnap != "" && r.hv.String() != r.hvSnap) || (r.leaf != nil && r.leafSnap != "" && r.leaf.String() != r.leafSnap) {
+			c := *in
+			c.Path = r.view.Parts
+			d.rep.Fail("c10-result-overwritten", fmt.Sprintf("the *big.Int returned for %v by HashValueWithHasher / ValueMtEntry changed after later calls", r.view.Parts), &c)
+			break
+		}
 	}
 	sort.Slice(res, func(i, j int) bool { return pathKey(res[i].view.Parts) < pathKey(res[j].view.Parts) })
 
@@ -405,16 +448,19 @@ func (d *drv) docCase(stream string, doc []byte, hi int, ctxs map[string]json.Ra
 }
 
 // observe evaluates the property's observation points for one literal entry.
-func (d *drv) observe(mz *merklize.Merklizer, h merklize.Hasher, v mzrun.EntryView, in *Input) *entryRes {
+func (d *drv) observe(mz *merklize.Merklizer, h merklize.Hasher, mapKey string, v mzrun.EntryView, in *Input) *entryRes {
 	r := &entryRes{view: v}
 	withPath := func() *Input { c := *in; c.Path = v.Parts; return &c }
 	d.rep.Evaluations++
-	p, err := merklize.Options{Hasher: h}.NewPath(v.Parts...)
+	p, err := mz.Options().NewPath(v.Parts...)
 	if err != nil {
 		d.rep.Fail("c10-path", "entry path rejected by NewPath: "+err.Error(), withPath())
 		return r
 	}
 	r.path = p
+	if pk, perr := p.MtEntry(); perr != nil || pk.String() != mapKey {
+		d.rep.Fail("c10-path-key", fmt.Sprintf("path %v built through mz.Options() hashes to %v (%v), the entry is stored under %s", v.Parts, pk, perr, mapKey), withPath())
+	}
 	dt, err := mz.JSONLDType(p)
 	if err != nil || dt != v.Datatype {
 		d.rep.Fail("c10-jsonldtype", fmt.Sprintf("JSONLDType(%v) = %q, %v; entry datatype %q", v.Parts, dt, err, v.Datatype), withPath())
@@ -453,6 +499,10 @@ func (d *drv) observe(mz *merklize.Merklizer, h merklize.Hasher, v mzrun.EntryVi
 	}
 	r.hv, r.hvErr, r.hvPanic = safeHash(h, r.dt, r.raw)
 	r.agree = r.hv != nil && r.hv.Cmp(leaf) == 0
+	r.leafSnap = leaf.String()
+	if r.hv != nil {
+		r.hvSnap = r.hv.String()
+	}
 	if r.agree && proof != nil && !merkletree.VerifyProof(mz.Root(), proof, key, r.hv) {
 		d.rep.Fail("c10-leaf-not-in-tree", fmt.Sprintf("HashValue of %v does not verify against the root", v.Parts), withPath())
 	}
@@ -730,7 +780,7 @@ func (d *drv) contextsOf(doc []byte) map[string]json.RawMessage {
 func Run(cfg *common.Config) (*common.Report, error) {
 	rep := common.NewReport("C10")
 	rep.Correspondence = "Value.LeafRun.gmismatches: value_to_hash (Value/Model.v) vs merklize.HashValueWithHasher(JSONLDType(p), RawValue(p)); to_rdf_lex;convert;mk_value_entry (Value/Leaf.v) vs the leaf / Proof value / Go kind the implementation stored for the same document value"
-	rep.Rule = "every literal entry of every merklized document: docgen documents (random schema trees, typed/untyped literals of all supported kinds, arrays, nested nodes, named graphs) and a crafted grid (integer boundaries around 2^53, 10^15..10^19, int64 limits, 1e21; number spellings; numeric strings; doubles incl. NaN/Inf strings; booleans as true/false/0/1/\"0\"/\"1\"/-0; dateTimes with offsets, nanoseconds, bare dates; arrays in canonical and non-canonical order; arrays of nodes) x 4 hashers. evaluations = literal entries observed; distinct = distinct (hasher, datatype, RawValue) triples; all are non-trivial (each reaches a datatype branch of both code paths)."
+	rep.Rule = "every literal entry of every merklized document: docgen documents (random schema trees, typed/untyped literals of all supported kinds, arrays, nested nodes, named graphs) and a crafted grid (integer boundaries around 2^53, 10^15..10^19, int64 limits, 1e21; number spellings; numeric strings; doubles incl. NaN/Inf strings; booleans as true/false/0/1/\"0\"/\"1\"/-0; dateTimes with offsets, nanoseconds, bare dates; arrays in canonical and non-canonical order; arrays of nodes) x 4 hashers; plus pinned-default sequences (SetHasher(h); MerklizeJSONLD without WithHasher; SetHasher(other); all observations through mz.Hasher()/mz.Options()) on every third docgen document and every eighth grid document. evaluations = literal entries observed; distinct = distinct (hasher, datatype, RawValue) triples; all are non-trivial (each reaches a datatype branch of both code paths)."
 	d := &drv{cfg: cfg, rep: rep, loader: ctxload.New(), hs: hasherSet(), gen: docgen.New(cfg.Rng)}
 	if cfg.Replay != "" {
 		var rf struct {
@@ -742,7 +792,7 @@ func Run(cfg *common.Config) (*common.Report, error) {
 		for u, b := range rf.Input.Contexts {
 			_ = d.loader.Add(u, b)
 		}
-		d.docCase("replay", rf.Input.Doc, rf.Input.Hasher, rf.Input.Contexts)
+		d.docCaseP("replay", rf.Input.Doc, rf.Input.Hasher, rf.Input.Contexts, rf.Input.Pinned)
 		for _, f := range rep.Failures {
 			fmt.Printf("replay: [%s] %s\n", f.Class, f.What)
 		}
@@ -760,6 +810,11 @@ func Run(cfg *common.Config) (*common.Report, error) {
 			hi = cfg.Rng.Intn(len(d.hs))
 		}
 		d.docCase("docgen", doc.Bytes, hi, d.contextsOf(doc.Bytes))
+		if i%3 == 0 {
+			// the same document, merklized without WithHasher while hasher #hi is the package
+			// default, observed after merklize.SetHasher(another hasher)
+			d.docCaseP("pinned", doc.Bytes, hi, d.contextsOf(doc.Bytes), true)
+		}
 		if i%29 == 0 {
 			rep.Sample(map[string]any{"stream": "docgen", "doc": string(doc.Bytes), "hasher": hi})
 		}
@@ -785,6 +840,9 @@ func Run(cfg *common.Config) (*common.Report, error) {
 		doc := gridDoc(cfg, i)
 		hi := i % len(d.hs)
 		d.docCase("grid", doc, hi, nil)
+		if i%8 == 0 {
+			d.docCaseP("pinned", doc, hi, nil, true)
+		}
 		if i%31 == 0 {
 			rep.Sample(map[string]any{"stream": "grid", "doc": string(doc), "hasher": hi})
 		}
